@@ -88,6 +88,7 @@ def run(replay=None):
                            "slices, arrays of length 0/1/2/5, register-, float-, nested- and stack-passed structs, pointers, interfaces, funcs, maps, chans; a quarter variadic) x call forms "
                            "{direct, function value, reflect.Call, defer, go} x phases {fresh, after two collections with heap churn, after forced stack growth on a new goroutine} with a typed "
                            "closure as replacement, plus a stubbed Return; arguments seen by the replacement and results seen by the caller compared bit-exactly with what was sent; "
+                           "the zoo is run once more with goom's debug logging on; retention: 18 mocks whose builder and callback the program drops, 4 collections with heap churn, then a call; "
                            "non-trivial = distinct signature")
     ck.coverage["samples"] = samples
     return ck.finish()
